@@ -273,7 +273,10 @@ def evaluate(ctx, rng, idx, h, phase):
             mech = "C17:MT:normalizeU-row-does-not-sum-to-one"
             if trace.get("lagrange_failed"):
                 mech += ":lagrange-multiplier-solve-unreliable"
-            ctx.check("C17:mt-output", all(abs(u[i].sum() - 1) <= 1e-6 for i in rows), mech,
+            # entries below min_value_par are set to 0 AFTER the row has been normalised (that is what the threshold
+            # means), so a row may fall short of 1 by up to (K-1)*min_value_par
+            rtol_ = 1e-6 + (K - 1) * cfg.get("min_value_par", 1e-5)
+            ctx.check("C17:mt-output", all(abs(u[i].sum() - 1) <= rtol_ for i in rows), mech,
                       lambda: wit({"row_sums": u.sum(axis=1).tolist(), "lagrange_calls": trace.get("lagrange"), "unconverged": trace.get("lagrange_failed")}))
             ctx.event("lagrange-multiplier-solves", trace.get("lagrange", 0))
             ctx.event("lagrange-multiplier-unconverged", trace.get("lagrange_failed", 0))
